@@ -632,9 +632,13 @@ def streams_for(pid, tier, rng):
     else:
         raise ValueError("unknown property " + pid)
     bl = band_lines(rng, pools, pid, scale) if pid in ("C02", "C07", "C08", "C10", "C11", "C12", "C13", "C16", "C17") else []
+    if pid == "C03":
+        for q in ("C07", "C08", "C10", "C11", "C12", "C13", "C16"):
+            bl += band_lines(rng, pools, q, 1)
+        bl = uniq(bl)
     if bl:
         S.append(Stream("values around cast / fast-path / f64-precision thresholds", bl,
-                        ("off", "on") if pid in ("C02", "C08", "C12", "C13") else ("off",),
+                        ("off", "on") if pid in ("C02", "C03", "C08", "C12", "C13") else ("off",),
                         (oracle_no_panic, oracle_range) if pid == "C02" else (oracle_no_panic,)))
     return [s for s in S if s.lines]
 
